@@ -406,6 +406,7 @@ def proj_ctlv(cls, t):
 
 def _via(cls, raw, via):
     from spacepackets.cfdp.tlv import CfdpTlv, TlvHolder
+    from spacepackets.cfdp.tlv.defs import TlvType
     c = ctlv_class(cls)
     buf = bytes(raw) if isinstance(raw, (list, tuple)) else raw          # bytes / bytearray / memoryview pass as they are
     if via == "unpack":
@@ -415,10 +416,20 @@ def _via(cls, raw, via):
         # a generic TLV the caller built itself, with the type given as a plain integer (TlvType is an IntEnum)
         generic = CfdpTlv(int(generic.tlv_type), bytes(generic.value))
     if via == "from_tlv":
-        return c.from_tlv(generic)
-    h = TlvHolder(generic)
-    return {"entity": h.to_entity_id, "flow": h.to_flow_label, "fault": h.to_fault_handler_override,
-            "fsreq": h.to_fs_request, "fsresp": h.to_fs_response, "msg": h.to_msg_to_user}[cls]()
+        res = c.from_tlv(generic)
+    else:
+        h = TlvHolder(generic)
+        res = {"entity": h.to_entity_id, "flow": h.to_flow_label, "fault": h.to_fault_handler_override,
+               "fsreq": h.to_fs_request, "fsresp": h.to_fs_response, "msg": h.to_msg_to_user}[cls]()
+    # the generic TLV is the caller's object; afterwards it is re-typed through its public setter - the converted object
+    # (filestore TLVs parse their fields out of it) must keep its own type.  Classes that are documented wrappers around
+    # the generic TLV (entity ID, flow label, message to user, fault handler) are left alone.
+    if cls in ("fsreq", "fsresp"):
+        try:
+            generic.tlv_type = TlvType.FLOW_LABEL
+        except Exception:  # noqa
+            pass
+    return res
 
 
 def op_ctlv_rt(a):
@@ -437,8 +448,18 @@ def _ctlv_rt_body(a, o):
             decode_other("ctlv:" + a["cls"], lambda b: _via(a["cls"], b, a.get("via", "unpack")))
             if type(d) is not ctlv_class(a["cls"]):
                 return {"wrongclass": type(d).__name__}
-            return {"octets": octs(raw), "plen": plen, "dec": proj_ctlv(a["cls"], d), "dplen": d.packet_len,
-                    "repack": octs(d.pack()), "eq": bool(d == o), "t": int(o.tlv_type)}
+            out = {"octets": octs(raw), "plen": plen, "dec": proj_ctlv(a["cls"], d), "dplen": d.packet_len,
+                   "repack": octs(d.pack()), "eq": bool(d == o), "t": int(o.tlv_type)}
+            if a["cls"] in ("fsreq", "fsresp"):
+                # a second decoded object is changed through its public attribute BEFORE it is packed for the first time: it must
+                # pack its current parameters (as an object built by the constructor does), not the image it came from
+                d2 = _via(a["cls"], rxbuf(raw, a["sfx"]), a.get("via", "unpack"))
+                n1 = a["p"]["n1"]
+                d2.first_file_name = bytes(n1 + [122] if len(n1) < 200 else [122]).decode("utf-8")
+                out["edit"] = outcome(lambda: octs(d2.pack()))
+                if isinstance(out["edit"], dict):
+                    out["edit"] = []
+            return out
         return after_pack(raw, rest)
 
 
